@@ -8,7 +8,9 @@ the simulated value AND len(result) are compared with
 In addition the select net's op_param of every slice is compared structurally with the PySlice
 model and with Python list slicing (check_indices), and py/genfrag_C06.py regenerates
 Gen/C06Src.v (the _two_var_op length rule, _convert_int, _convert_bool) from the source on every
-run; Front/SrcTie.v proves the model equal to it.
+run; Front/SrcTie.v proves the model equal to it.  Gen/C06Helpers.v holds the regenerated BODIES of the
+signed_* helpers, the shift_* wrappers and the barrel-shifter stage; Front/HelpersTie.v proves them equal
+to the definitions evaluated here and restates the property theorems about the regenerated bodies.
 """
 import itertools
 import pyrtl
@@ -33,11 +35,21 @@ TRUSTED = ['py/checks/C06.py spec_* functions: the mathematical meaning of each 
            'coq/theories/Front/Signed.v to_signed; Front/PySliceProofs.v is_slice_of (declarative Python slicing); '
            'Front/BarrelProofs.v shl_fill/shr_fill; Props/C06.v statements',
            'Front/SrcTie.v op_char: LogicNet op characters of the ten two-operand operators (core.py)',
-           'py/genfrag_C06.py (uses py/pyfrag.py): Gen/C06Src.v = _two_var_op length rule, _convert_int, _convert_bool']
+           'py/genfrag_C06.py (uses py/pyfrag.py): Gen/C06Src.v = _two_var_op length rule, _convert_int, _convert_bool; '
+           'Gen/C06Helpers.v = bodies of signed_add/signed_mult/signed_lt/le/gt/ge, the four shift_* (wire and int '
+           'amount paths) and the barrel_shifter stage loop body, each Python operator/method/call mapped to the '
+           'homonymous model function of Front/Ops.v (WireTr: - -> op_sub, x[-1] -> getitem_d x (IInt -1), '
+           '.sign_extended -> sign_extended_d, match_bitwidth, concat, select, Const -> const_d, len -> wd)',
+           'still hand-modelled (behavioural + structural tie only): the operator layer Front/Ops.v itself '
+           '(as_wires, match_bitwidth, _extend_with_bit, __getitem__ via PySlice, concat, select, <<=), the fold '
+           'skeleton of barrel_shifter (frame-checked textually), _convert_verilog_str numeric tail (C16)']
 ASSUMPTIONS = ['operand WireVectors carry values in [0, 2^bitwidth) (guaranteed by Simulation, C01/C15)',
                'shift amounts given as Verilog strings / bools are outside the property (wire or int only)',
                'the text -> (sign, width, number) parsing of Verilog-style strings is C16\'s subject; here the '
-               'strings are generated from (width, number) and only the numeric rules are modelled']
+               'strings are generated from (width, number) and only the numeric rules are modelled',
+               'regenerated helper bodies are for WireVector (and, for signed_add/signed_mult/shift amounts, Python '
+               'int) parameters: as_wires(x) of a WireVector is x; other operand kinds reach the helpers through '
+               'as_wires / Const, which the operand-kind model (lift2/lift2s) covers and the search exercises']
 
 F14_SIG = 'mul:width-is-2max-not-sum'
 F14_WHAT = ("len(a * b) is 2*max(len(a), len(b)), not len(a)+len(b), when the operand widths differ "
